@@ -33,7 +33,8 @@ CONSTANTS MetaNs,      \* design model: numbers of precision stages (0 = not a m
           Boxes,       \* design model: set of boxes (sequences of <<has, inclLower, inclUpper>>)
           KConv,       \* E4: accepted distance to the minimiser, in units of sqrt(tol*max(1,|f*|))*max(1,|m|), times 1000,
                        \*     for optimisers whose stop condition watches the function value
-          KConvX       \* same for optimisers whose stop condition watches the abscissa itself (Brent, golden section)
+          KConvX,      \* same for optimisers whose stop condition watches the abscissa itself (Brent, golden section)
+          KGap         \* E4: accepted gap f(x) - f*, in units of tolerance * max(1,|f*|) * condition number, times 1000 (stop rules on f)
 
 VARIABLES
   phase,    \* "New" | "Initing" | "Inited" | "Running" | "Stepping" | "Done" | "Dead" | "Bracketing"
@@ -187,12 +188,12 @@ MStepEnd(r) ==
 
 \* optimize() returned (r = "ok": ret = returned value, fv = getFunctionValue(),
 \* re = objective re-evaluated at getParameters(), feas = codes of that point,
-\* nb = getNumberOfEvaluations(), t = isToleranceReached(), q = E4 distance) or raised
-Finish(r, ret, fv, re, feas, nb, t, q) ==
+\* nb = getNumberOfEvaluations(), t = isToleranceReached(), q = E4 distance, gp = E4 gap) or raised
+Finish(r, ret, fv, re, feas, nb, t, q, gp) ==
   /\ phase = "Running"
   /\ IF r = "ok"
      THEN /\ phase' = "Done"
-          /\ rep' = [ret |-> ret, fv |-> fv, re |-> re, feas |-> feas, fok |-> FeasPoint(feas), onb |-> OnBound(feas), nb |-> nb, tol |-> t, q |-> q]
+          /\ rep' = [ret |-> ret, fv |-> fv, re |-> re, feas |-> feas, fok |-> FeasPoint(feas), onb |-> OnBound(feas), nb |-> nb, tol |-> t, q |-> q, g |-> gp]
           /\ UNCHANGED badRaise
      ELSE /\ phase' = "Dead"
           /\ rep' = NoRep
@@ -248,7 +249,10 @@ FeasibleAlways == pol = "auto" => /\ ~infeas
 \* with the bounds moved one precision step inside, so it can only get there by a step that escaped its own shortening.
 ConvApplies == /\ HasRep /\ obj.quad /\ obj.inact /\ obj.conv # "none" /\ rep.tol /\ rep.nb * 10 <= max
                /\ (~touched \/ (obj.bnd /\ rep.onb))
-Converged == ConvApplies => rep.q <= (IF obj.conv = "x" THEN KConvX ELSE KConv)
+\* ... and, for a stop rule on the function value, the value reached is within KGap/1000 * kappa * tolerance * max(1,|f*|) of
+\* the minimum (a linearly convergent method with rate 1 - 1/kappa stopped by |df| < tol sits at about kappa * tol)
+Converged == ConvApplies => /\ rep.q <= (IF obj.conv = "x" THEN KConvX ELSE KConv)
+                            /\ obj.conv = "f" => rep.g <= KGap
 
 \* the point whose abscissa lies (weakly) between the other two has the lowest value
 Between(x, a, b) == (a <= x /\ x <= b) \/ (b <= x /\ x <= a)
@@ -319,9 +323,9 @@ DFinish    == /\ phase = "Running"
               /\ \E p \in {q \in Points : pol = "auto" => FeasPoint(q)} :
                     \* stopping by tolerance means being at the minimiser; a budget stop may end anywhere
                     \E q \in {0} \cup (IF tol /\ (cnt + 1) * 10 <= max /\ (~touched \/ (obj.bnd /\ OnBound(Seq1(p)))) THEN {} ELSE {KConv + 1, KConvX + 1}) :
-                       Finish("ok", held, held, held, Seq1(p), cnt + 1, tol, q)
+                       Finish("ok", held, held, held, Seq1(p), cnt + 1, tol, q, IF q = 0 THEN 0 ELSE KGap + 1)
 DRaise     == /\ phase = "Running" /\ Licensed("raise:ConstraintException")
-              /\ Finish("raise:ConstraintException", NoRank, NoRank, NoRank, <<>>, cnt + 1, tol, 0)
+              /\ Finish("raise:ConstraintException", NoRank, NoRank, NoRank, <<>>, cnt + 1, tol, 0, 0)
 DMStepEnd  == MStepEnd("ok")
 DBracket   == \E xs \in [1..3 -> 0..2], fs \in [1..3 -> Ranks] :
                  /\ MiddleLowest([x |-> xs, f |-> fs])
